@@ -218,8 +218,19 @@ def gen_path(rng, tree, want="any"):
         return render(pos, sep), "concrete"
     if last[0] == "i":
         size = len(parent.items)
-        if roll < 0.52:
+        if roll < 0.48:
             return join(base, "[%d]" % (last[1] - size), sep), "negative-index"
+        if roll < 0.52 and base not in ("", "/"):
+            # a list position written as a bare (possibly negative) key
+            ref = last[1] - size if rng.random() < 0.7 else last[1]
+            if sep == "/":
+                return base + "/%d" % ref, "index-as-key"
+            return base + ".%d" % ref, "index-as-key"
+        if roll < 0.56:
+            lo = last[1] - size
+            hi = lo + 1
+            text = "[%d:%d]" % (lo, hi) if hi < 0 else "[%d:]" % lo
+            return join(base, text, sep), "negative-slice"
         if roll < 0.62:
             lo = rng.randrange(0, last[1] + 1)
             hi = rng.randrange(last[1] + 1, size + 1)
